@@ -8,7 +8,7 @@
    State of the files: they describe the tree WITH fixes/C13-version-not-offered.diff applied (env_fixed:
    UConn.clientHandshake refuses a version that hello.supportedVersions does not list); the pre-fix
    behaviour (env_unfixed) is refuted below with the Firefox_102 witness. *)
-From UV Require Import Base.Common Model.Negotiate Model.NegotiateSess Proofs.NegotiateP Proofs.NegotiateSessP.
+From UV Require Import Base.Common Model.Negotiate Model.NegotiateSess Proofs.NegotiateP Proofs.NegotiateVersP Proofs.NegotiateSessP.
 
 (* whatever the server sends (legacy_version only, supported_versions, HRR first, ...), a completed handshake
    is at a version the wire hello advertised *)
@@ -107,6 +107,27 @@ Theorem C13_resumed_at_session_version : forall e v vers h fl s ems st,
   s_vers s = vers /\ s_suite s = cs_suite st /\ In (cs_suite st) (cv_suites v) /\ s_ems s = ems.
 Proof. exact run12_sess_resumed. Qed.
 Print Assumptions C13_resumed_at_session_version.
+
+(* the premise the correspondence checks on every run (Corr/C13Corr.v): versions_ok = versions_synced, or - hello without
+   a supported_versions extension, after fixes/C13-no-supported-versions-extension - Hello.SupportedVersions is the accepted
+   versions up to legacy_version. Both C13 conclusions under it, with and without an offered session. *)
+Theorem C13_version_advertised_ok : forall v specmin w fl st,
+  versions_ok v specmin w = true -> client_run v fl = Complete st -> In (cs_vers st) (advertised specmin w).
+Proof. exact version_fixed_ok. Qed.
+Print Assumptions C13_version_advertised_ok.
+
+Theorem C13_version_advertised_ok_with_session : forall v specmin w sess ems fl st,
+  versions_ok v specmin w = true ->
+  client_run_sess env_fixed v sess ems fl = Complete st -> In (cs_vers st) (advertised specmin w).
+Proof. exact version_sess_ok. Qed.
+Print Assumptions C13_version_advertised_ok_with_session.
+
+Theorem C13_canary_ok_with_session : forall v specmin w sess ems fl st,
+  versions_ok v specmin w = true -> offers13 w = true ->
+  h_tail (first_hello fl) = 1 \/ h_tail (first_hello fl) = 2 ->
+  client_run_sess env_fixed v sess ems fl = Complete st -> cs_vers st = V13.
+Proof. exact canary_sess_ok. Qed.
+Print Assumptions C13_canary_ok_with_session.
 
 (* ---- hypotheses are satisfiable ---- *)
 Example C13_ex_firefox102_after_fix :
